@@ -7,7 +7,11 @@ RULE = ("generated transition systems (1-3 bit-vector states of width 1-4, optio
         "harness/shims) x {bad states checked individually, jointly} x {raw, simplified with simplify_expressions}: per system one run "
         "per profile with random mode/simplification, the real patronus::mc::bmc through the real SmtLibSolverCtx text protocol. "
         "Reference: extracted bmc_spec (explicit-state breadth-first search) on the same system and bound; also on the simplified "
-        "system. distinct = distinct (system, bound) pairs")
+        "system. Plus, per system, one run of bmc with check_constraints=true on z3 (random mode): expected = Fail at the same depth, "
+        "Success only if the constraints stay satisfiable up to every step <= k, otherwise the assert_eq! panic at exactly the step "
+        "from which no execution satisfies the constraints (C02_bmc_full_exact; the step is computed by the driver from the fronts of "
+        "bmc_spec); a third of the systems get a constraint under which the executions die out (s != v, s < v, or a counter dc < v). "
+        "distinct = distinct (system, bound) pairs")
 ASSUMPTIONS = [
     "the solvers (z3 4.8.12, cvc5 1.0.3) answer sat/unsat correctly; two independent solvers must agree with the reference",
     "bitwuzla and yices-smt2 are not installed: their capability profiles are exercised with z3 behind a filter that drops the "
@@ -18,7 +22,8 @@ ASSUMPTIONS = [
     "with cvc5 only in a time-limited child process (3 per stream), the remaining ones are reported as not run",
     "systems larger than 2^15 valuations per step are not compared",
 ]
-TRUSTED = ["ocaml/driver/c02.ml: comparison of verdict and counterexample length; attribution of a solver error to a C04 defect class by "
+TRUSTED = ["ocaml/driver/c02.ml: constraints_dead_at (first step without a constrained execution, from the extracted fronts; not proved equal to ~exec_at)",
+           "ocaml/driver/c02.ml: comparison of verdict and counterexample length; attribution of a solver error to a C04 defect class by "
            "running the extracted strict checker on the model's script"]
 
 
@@ -42,7 +47,14 @@ MANIFEST = dict(
                 "expressions in the class the encoding handles), C02_bmc_model_is_spec (= bmc_spec), C02_bmc_modes_agree (individual = "
                 "joint checking), C02_bmc_no_missed_counterexample. Uses C04's well-formedness and faithfulness theorems and their converse "
                 "(every model of the definitions is an execution, Proofs/BmcSound.v). "
+                "The WHOLE of bmc() (Model/BmcWitFull.v, all parameters): C02_bmc_full_exact - under a solver that is truthful on sat and "
+                "unsat and never says unknown or fails, for check_constraints on/off, both modes, k_max <= 2000: Fail j w iff j is the least "
+                "depth <= k_max with a reachable bad state, Success iff there is none (and, with check_constraints, the constraints are "
+                "satisfiable up to every step), FPanic iff check_constraints is on and the constraints are unsatisfiable up to some step "
+                "with no bad state reachable before (the assert_eq!), never Unknown/Err; C02_bmc_full_fail_iff_reachable, "
+                "C02_bmc_full_modes_agree, C02_bmc_full_check_constraints_panic_iff, C02_bmc_full_fail_independent_of_check_constraints "
+                "(hypothesis: get_signal_at does not panic on constraints and bad states up to the bound - a computation). "
                 "Tie to /repo: verdict and counterexample length of the real patronus::mc::bmc with real solvers (four capability "
                 "profiles, both modes, raw/simplified) vs the extracted bmc_spec on every run."),
-    level_note='Trusted: Coq kernel; SMT solvers assumed correct (Section hypothesis in the algorithm-layer theorems; two real solvers must agree with the explicit-state reference in the tie); oracle runs only on systems with <= 2^15 valuations per step. Repaired in /repo through this check: the three C04 encoding defects, bmc(k_max = 0) panic. Open findings: cyclic init dependencies (solver rejects the script), cvc5 refuses (as const ..) of a non-value.',
+    level_note='Trusted: Coq kernel; SMT solvers assumed correct (Section hypothesis in the algorithm-layer theorems; two real solvers must agree with the explicit-state reference in the tie); oracle runs only on systems with <= 2^15 valuations per step. Repaired in /repo through this check: the three C04 encoding defects, bmc(k_max = 0) panic. Observation (candidate finding, not recorded): bmc(.., check_constraints=true, ..) panics with assert_eq!("Found unsatisfiable constraints in cycle j") instead of returning the verdict Success that the same call gives with check_constraints=false - reproduced on the real code exactly where the model predicts it. Open findings: cyclic init dependencies (solver rejects the script), cvc5 refuses (as const ..) of a non-value.',
 )
